@@ -493,6 +493,108 @@ def method_transforms(case, ctx):
 
 
 # ----------------------------------------------------------------------------
+# module-valued attributes that alias each other
+# ----------------------------------------------------------------------------
+def _triple_call(self, x):
+  return self.a(x) + 2.0 * self.b(x) + 3.0 * self.c(jnp.tanh(x))
+
+
+def _make_triple(order):
+  ns = {'__annotations__': {k: nn.Module for k in order},
+        '__call__': nn.compact(_triple_call)}
+  return type('Triple' + ''.join(order).upper(), (nn.Module,), ns)
+
+
+TRIPLES = {o: _make_triple(o) for o in ('abc', 'cab', 'bca')}
+TRIPLES_TR = {}
+
+
+def triple_cls(order, tr):
+  if tr is None:
+    return TRIPLES[order]
+  key = (order, tr)
+  if key not in TRIPLES_TR:
+    TRIPLES_TR[key] = L.transformed_class(TRIPLES[order], tr)
+  return TRIPLES_TR[key]
+
+
+class AliasRoot(nn.Module):
+  """Owns three leaves and hands them to a (transformed) Triple according to
+  `pattern`, e.g. (0, 1, 0): attributes a and c are the same module."""
+  pattern: tuple = (0, 1, 2)
+  order: str = 'abc'
+  tr: Any = None
+  dim: int = 2
+
+  @nn.compact
+  def __call__(self, x):
+    leaves = [MLeaf(self.dim, name=f'leaf{i}') for i in range(3)]
+    for l in leaves:
+      x = x + 0.0 * l(x)      # every leaf exists whatever the pattern
+    a, b, c = (leaves[i] for i in self.pattern)
+    tr = 'map_id_init' if self.tr == 'map_id' and self.is_initializing() \
+        else ('map_id_apply' if self.tr == 'map_id' else self.tr)
+    return triple_cls(self.order, tr)(a=a, b=b, c=c, name='triple')(x)
+
+
+def alias_case():
+  pat = st.tuples(st.integers(0, 2), st.integers(0, 2), st.integers(0, 2))
+  return st.fixed_dictionaries({
+      'patterns': st.lists(pat, min_size=2, max_size=4),
+      'order': st.sampled_from(sorted(TRIPLES)),
+      'tr': st.sampled_from(L.ALL_TR), 'dim': st.integers(1, 3),
+      'seed': st.integers(0, 2**16),
+      'mutable': st.sampled_from([False, ['counters'], True])})
+
+
+@clause('aliased_attributes', strategy=alias_case, quick=120, thorough=5000,
+        quick_shards=8, thorough_shards=16, shrink=False,
+        rule='a module with three module-valued attributes (declared in one '
+        'of three orders) receives three root-owned leaves according to a '
+        'pattern that may alias them ((0,1,0), (0,1,1), ...); a history of '
+        '2-4 patterns is applied in one process on the same variables, the '
+        'module plain or wrapped in nn.jit / nn.jit(variables=...) / nn.remat '
+        '/ identity nn.map_variables: every output and returned collection '
+        'equals the plain module with the same pattern (a changed aliasing '
+        'pattern must not reuse a stale trace); non-trivial = two patterns of '
+        'the history differ and one of them aliases')
+def aliased_attributes(case, ctx):
+  D, tr, order, seed = case['dim'], case['tr'], case['order'], case['seed']
+  x = jnp.asarray(np.random.default_rng(seed).normal(size=(2, D)),
+                  jnp.float32)
+  key = {'params': jax.random.key(seed)}
+  with sut('init'):
+    v = unfreeze(AliasRoot(pattern=(0, 1, 2), order=order, tr=None,
+                           dim=D).init(key, x))
+  # distinct leaf parameters so that a wrong aliasing changes the output
+  v['params'] = jax.tree_util.tree_map(lambda a: a, v['params'])
+  pats = [tuple(p) for p in case['patterns']]
+  pats = pats + [pats[0]]
+  for hi, pat in enumerate(pats):
+    plain = AliasRoot(pattern=pat, order=order, tr=None, dim=D)
+    trans = AliasRoot(pattern=pat, order=order, tr=tr, dim=D)
+    with sut('apply plain'):
+      rp = plain.apply(v, x, mutable=case['mutable'])
+    with sut(f'apply {tr}'):
+      rt = trans.apply(v, x, mutable=case['mutable'])
+    if case['mutable'] is False:
+      require(out_eq(rp, rt), lambda: f'history step {hi}, pattern {pat}: '
+              f'{tr}(Triple) output {np.asarray(rt)} differs from the plain '
+              f'module {np.asarray(rp)} (earlier patterns {pats[:hi]})')
+    else:
+      require(out_eq(rp[0], rt[0]), lambda: f'history step {hi}, pattern '
+              f'{pat}: {tr}(Triple) output differs from the plain module '
+              f'(earlier patterns {pats[:hi]})')
+      up, ut = unfreeze(rp[1]), unfreeze(rt[1])
+      require(set(up) == set(ut) and tree_close(up, ut), lambda: f'history '
+              f'step {hi}, pattern {pat}: updates under {tr} differ from the '
+              'plain module')
+  ctx.note(labels=[tr, order, f'len{len(pats)}'],
+           nontrivial=len(set(pats)) >= 2 and any(len(set(p)) < 3
+                                                  for p in pats))
+
+
+# ----------------------------------------------------------------------------
 def w_case():
   return st.tuples(
       L.case_strategy(allow=('counter', 'tanh'), max_depth=1, max_ops=3,
